@@ -49,6 +49,9 @@ type ReadPlan struct {
 	MaxChunk  int    `json:"max_chunk,omitempty"`
 	// ZeroReads is the number of (0, nil) results injected before real data (bounded).
 	ZeroReads int `json:"zero_reads,omitempty"`
+	// DelayNano: every read that delivers data takes this long on the simulated clock (a slow pipe, a
+	// stopped writer): code that looks at the time between records meets large gaps.
+	DelayNano int64 `json:"delay_nano,omitempty"`
 	// FaultAt >= 0: the reader fails once FaultAt bytes have been delivered. -1: never.
 	FaultAt int `json:"fault_at"`
 	// FaultKind: "EIO", "UNEXPECTED_EOF", "CUSTOM", "EISDIR".
